@@ -229,7 +229,7 @@ PROPS["C31"] = dict(
         "frame's own encoding exceeds max_transmit_size or breaks the publish/control limits, accepted otherwise "
         "whatever follows it; proper prefixes of a frame: never accepted, and Ok(false) (wait) when the frame is "
         "admissible."),
-    bounds="frames <= 6 bytes of 5 concrete protobuf shapes, 0-4 trailing symbolic bytes, limits = any usize; one-byte length prefixes; unwind 20",
+    bounds="frames <= 6 bytes of 7 concrete protobuf shapes (publish, control, subscriptions, empty, unknown varint/fixed32 fields), 0-4 trailing symbolic bytes, limits = any usize; one-byte length prefixes; unwind 20",
     outside="arbitrary (hostile) payload bytes through prost skip_field (recursive group skipping, depth 100: no result in 15 min even for one symbolic byte); GossipsubCodec::decode after the pre-validation (prost parse into Rpc, per-topic size check, signature handling: HashMap + crypto); multi-byte length prefixes; Framed's chunk delivery (covered by quantifying over the buffer contents at each decode call)",
     stubs=[TRACING, FMT], assumptions=[], hooks=["hook: libp2p_gossipsub::verif_hooks::validate_rpc_limits (wrapper calling the private function)"],
 )
